@@ -9,6 +9,7 @@ from __future__ import annotations
 import asyncio
 import multiprocessing
 import os
+import zlib
 import random
 import traceback
 from concurrent.futures import ProcessPoolExecutor, ThreadPoolExecutor
@@ -154,8 +155,13 @@ def inject_map(v, case, env, exp_calls, fname, ext_idx, term, spec, mode, scratc
     if reuse is None:
         log = probes.new_log(scratch)
         fault = {f["name"]: {"raise": {}} for f in case["funcs"]}
+        # (every fourth pipeline collects profiling statistics: the function then runs inside a profiler context)
+        profiled = zlib.crc32(str(tag).encode()) % 4 == 0
+        w["profile"] = profiled
+        if profiled:
+            v.count("failures_in_profiled_pipelines")
         with quiet():
-            pipeline = mapgen.build_pipeline(case, log=log, fault=fault)
+            pipeline = mapgen.build_pipeline(case, log=log, fault=fault, pipeline_kwargs=({"profile": True} if profiled else {}))
     else:
         pipeline, fault, log = reuse
         probes.log_clear(log)
@@ -335,6 +341,11 @@ def run_call_case(v, desc, scratch):
     gen = _gens(case)
     for out in daggen.all_outputs(case):
         K = {r: f"v_{r}" for r in daggen.needed_roots(case, out)}
+        if desc["i"] % 3 == 1:
+            # argument values that are instances of a user dataclass (directly, or inside a list): the failing invocation and
+            # its snapshot - also after a file round trip - must hold THOSE objects
+            K = {r: (probes.Tag(x) if desc["i"] % 6 == 1 else [probes.Tag(x)]) for r, x in K.items()}
+            v.count("failing_calls_with_dataclass_arguments")
         try:
             ref = daggen.ref_eval(case, out, K)
         except daggen.Missing:
@@ -359,9 +370,12 @@ def run_call_case(v, desc, scratch):
                 form = rng.choice(["call", "run", "full"])
                 log = probes.new_log(scratch)
                 fault_d = {fname: {"raise": {term: spec}}}
+                profiled = rng.random() < 0.25
+                if profiled:
+                    v.count("failures_in_profiled_pipelines")
                 with quiet():
-                    pipeline = daggen.build_pipeline(case, log=log, fault=fault_d)
-                w = dict(case=daggen.describe(case), output=out, failing=[fname, term], exc=spec, mode=form)
+                    pipeline = daggen.build_pipeline(case, log=log, fault=fault_d, pipeline_kwargs=({"profile": True} if profiled else {}))
+                w = dict(case=daggen.describe(case), output=out, failing=[fname, term], exc=spec, mode=form, profile=profiled)
                 err = None
                 try:
                     with deadline(WATCHDOG), quiet():
